@@ -29,6 +29,12 @@ func c07BaseItem(r *rand.Rand, bystanders int) val.Item {
 	it := val.Item{
 		"m":  val.Map(map[string]val.V{"x": val.Str("mx"), "k": val.Map(map[string]val.V{"y": val.Num("1"), "z": val.Str("kz")}), "li": val.List(val.Str("a"), val.Str("b"))}),
 		"l":  val.List(val.Str("l0"), val.Num("1"), val.List(val.Num("7"), val.Num("8")), val.Map(map[string]val.V{"q": val.Str("lq")})),
+		// a document four levels deep, with the same member names in both orders (a.b.c / a.c.b) and maps inside a list
+		"dp": val.Map(map[string]val.V{
+			"a": val.Map(map[string]val.V{
+				"b": val.Map(map[string]val.V{"c": val.Map(map[string]val.V{"v": val.Num("1"), "w": val.Str("abcw")}), "t": val.Str("abt")}),
+				"c": val.Map(map[string]val.V{"b": val.Map(map[string]val.V{"v": val.Num("2"), "w": val.Str("acbw")})})}),
+			"items": val.List(val.Map(map[string]val.V{"qty": val.Num("1"), "tags": val.List(val.Str("t0"), val.Str("t1"))}), val.Map(map[string]val.V{"qty": val.Num("2")}))}),
 		"n":  val.Num("5"),
 		"s":  val.Str("str"),
 		"ss": val.SS("a", "b", "c"),
@@ -91,6 +97,9 @@ var c07SetTargets = []refmodel.Path{
 	pth("nu"), pth("s"), pth("n"), pth("m", "x"), pth("m", "nw"), pth("m", "k", "y"), pth("m", "k", "nw"), pth("l", 0), pth("l", 3), pth("l", 4), pth("l", 9),
 	pth("l", 2, 1), pth("l", 3, "q"), pth("m", "li", 1), pth("#s"), pth("m", "#x"), pth("ss"), pth("l"), pth("m"),
 	pth("zz", "x"), pth("s", "x"), pth("m", "zz", "y"), pth("l", 7, "q"), // parents that do not exist: rejected by DynamoDB
+	// three and four steps below the attribute
+	pth("dp", "a", "b", "c"), pth("dp", "a", "b", "c", "v"), pth("dp", "a", "c", "b", "v"), pth("dp", "a", "b", "nw"), pth("dp", "items", 0, "qty"), pth("dp", "items", 0, "tags", 1), pth("dp", "items", 1, "nw"),
+	pth("dp", "a", "zz", "c", "v"), // a parent that does not exist, three steps down
 }
 
 func uv(name string) *refmodel.UExpr     { return &refmodel.UExpr{Kind: "val", Val: name} }
@@ -274,6 +283,7 @@ var c07RHS = []rhsGen{
 var c07RemoveTargets = []refmodel.Path{
 	pth("s"), pth("nope"), pth("m", "x"), pth("m", "nope"), pth("m", "k", "y"), pth("l", 0), pth("l", 3), pth("l", 4), pth("l", 2, 0), pth("l", 3, "q"), pth("m", "li", 0),
 	pth("#s"), pth("m", "#x"), pth("ss"), pth("m"), pth("l2", 0),
+	pth("dp", "a", "b", "c"), pth("dp", "a", "b", "c", "v"), pth("dp", "a", "c", "b", "w"), pth("dp", "items", 0, "qty"), pth("dp", "items", 0, "tags", 0), pth("dp", "items", 1), pth("dp", "a", "b", "nope", "v"),
 }
 
 type addGen struct {
